@@ -54,3 +54,53 @@ class Module:
         os.makedirs(os.path.dirname(fn), exist_ok=True)
         open(fn, "w").write(text)
         return fn
+
+
+def build_probe(mod, pkgs, race=False):
+    """pkgs: list of (dirname, constructorName). Writes probemain and builds it; returns (ok, output, binary path)"""
+    src = open(os.path.join(core.VERIF, "tools", "probe", "probemain.go.txt")).read()
+    imports = "\n".join('\t%s "probe/%s"' % (d, d) for d, _ in pkgs)
+    reg = "\n".join('\t"%s": func() any { return %s.%s() },' % (d, d, c) for d, c in pkgs)
+    mod.write("probemain/main.go", src.replace("//IMPORTS", imports).replace("//REGISTRY", reg))
+    exe = os.path.join(mod.root, "probemain.bin")
+    args = ["build"] + (["-race"] if race else []) + ["-o", exe, "./probemain"]
+    env = {"CGO_ENABLED": "1"} if race else None
+    rc, out = mod.go(args, env=env)
+    return rc == 0, out, exe
+
+
+def run_probe(exe, scripts, env=None, timeout=300):
+    """scripts: list of {"c": name, "ops": [...]}; returns list of result dicts (one per script)"""
+    inp = "".join(json.dumps(s) + "\n" for s in scripts)
+    e = dict(os.environ)
+    if env:
+        e.update(env)
+    p = subprocess.run([exe], input=inp, text=True, stdout=subprocess.PIPE, stderr=subprocess.PIPE, env=e, timeout=timeout)
+    out = []
+    for l in p.stdout.splitlines():
+        try:
+            out.append(json.loads(l))
+        except Exception:
+            out.append({"garbled": l[:200]})
+    return out, p.returncode, p.stderr
+
+
+def canon_serials(x, table=None):
+    """rename object serial numbers by first occurrence (identity, not allocation order, is compared); serial 0 = anonymous"""
+    if table is None:
+        table = {}
+    if isinstance(x, dict):
+        r = {}
+        for k in sorted(x):
+            v = x[k]
+            if k == "serial":
+                if v == 0:
+                    r[k] = 0
+                else:
+                    r[k] = table.setdefault(v, len(table) + 1)
+            else:
+                r[k] = canon_serials(v, table)
+        return r
+    if isinstance(x, list):
+        return [canon_serials(v, table) for v in x]
+    return x
